@@ -19,6 +19,29 @@ def case_for_oracle(rng):
     return c
 
 
+F8_WITNESS = {'n': 1, 'lo': [0.0], 'hi': [1.0], 'r': 2.5, 'eps': 1e-17, 'iters': 5000, 'density': None,
+              'objective': {'kind': 'cones', 'centers': [[1 / 3]], 'slopes': [1.0], 'offsets': [0.0]}}
+
+
+def float_resolution(chk):
+    import math
+    p, s = O.build(F8_WITNESS)
+    sol, out = H.run_script(s, [('solve',)])
+    chk.evaluations += 1
+    xs = [it.GetX() for it in H.items(s)]
+    gaps = [(b - a, a, b) for a, b in zip(xs, xs[1:])]
+    tight = [g for g in gaps if g[2] <= math.nextafter(math.nextafter(g[1], 2.0), 2.0)]     # no binary64 strictly inside, or exactly one
+    early = len(p.log) < F8_WITNESS['iters'] and not (sol.solutionAccuracy < F8_WITNESS['eps'])
+    chk.cov['float_resolution_witness'] = {'trials': len(p.log), 'accuracy': sol.solutionAccuracy, 'early': early, 'guard': 'x is outside of interval' in out, 'adjacent_intervals': len(tight)}
+    if not early:
+        return 0
+    if 'x is outside of interval' in out and tight and F8_WITNESS['eps'] < 2.0 ** -52:
+        return chk.violation('guard-at-float-resolution', 'N=1, eps=1e-17 (below the spacing of binary64 numbers in [0,1]): Solve ends after %d of %d trials with accuracy %.3g >= eps, through the guard "x is outside of interval"'
+                             % (len(p.log), F8_WITNESS['iters'], sol.solutionAccuracy), {'kind': 'solve', 'witness': 'float-resolution', 'case': F8_WITNESS})
+    return chk.violation('stop-rule', 'Solve ended after %d of %d trials with accuracy %.3g >= eps=%g: %s' % (len(p.log), F8_WITNESS['iters'], sol.solutionAccuracy, F8_WITNESS['eps'], out.strip()[-160:]),
+                         {'kind': 'solve', 'case': F8_WITNESS})
+
+
 def run(chk):
     rng = H.rng_for(chk.seed, 'C03')
     thorough = chk.tier == 'thorough'
@@ -34,6 +57,9 @@ def run(chk):
             found += chk.violation('stop-rule', fails[0], {'kind': 'solve', 'case': case})
             if found > 2:
                 break
+    # the recorded finding F8: an eps below the binary64 resolution of the curve parameter cannot be reached; the search then ends
+    # through the "x is outside of interval" guard of CalculateNextPointCoordinate - earlier than the property allows
+    found += float_resolution(chk)
     # non-finite objective values must not hang Solve (run in a separate process with a timeout)
     code = ("import sys; sys.path.insert(0, '/verif')\nfrom vlib import harness as H\nimport math\n"
             "from iOpt.problem import Problem\nimport numpy as np\n"
